@@ -90,6 +90,10 @@ func replayPrune(c *core.Ctx, lfsBin string, b *behaviour, idx int) (*core.Viola
 			}
 		case "serverloses":
 			w.Srv.Delete(repoName, w.Hex(s.str("oid")))
+		case "worktree":
+			if err := w.AddWorktree(s.str("b")); err != nil {
+				return nil, err
+			}
 		case "prune":
 			before := w.LocalOids()
 			if fmt.Sprint(before) != fmt.Sprint(toStrings(s["localBefore"])) {
@@ -106,8 +110,12 @@ func replayPrune(c *core.Ctx, lfsBin string, b *behaviour, idx int) (*core.Viola
 			case "verify-remote":
 				args = append(args, "--verify-remote")
 			}
-			w.logf("git %s", strings.Join(args, " "))
-			r := w.Env.RunIn(w.Clone, nil, nil, 120*time.Second, "git", args...)
+			dir := w.Clone
+			if s.str("from") == "linked" {
+				dir = w.Linked
+			}
+			w.logf("(in %s) git %s", filepath.Base(dir), strings.Join(args, " "))
+			r := w.Env.RunIn(dir, nil, nil, 120*time.Second, "git", args...)
 			after := toSet(w.LocalOids())
 			deleted := []string{}
 			for _, o := range before {
@@ -117,7 +125,7 @@ func replayPrune(c *core.Ctx, lfsBin string, b *behaviour, idx int) (*core.Viola
 			}
 			must := toSet(toStrings(s["mustRetain"]))
 			mk := func(assertion, why string) *core.Violation {
-				f := map[string]string{"flags": s.str("flags")}
+				f := map[string]string{"flags": s.str("flags"), "from": s.str("from")}
 				for k, v := range fields {
 					f[k] = v
 				}
@@ -167,13 +175,15 @@ func init() {
 		if !c.Quick() {
 			cfg, budget = "Prune_t.cfg", 3000
 		}
-		gcfg := writeCfgVariant(c, cfg, "Prune_gen.cfg", map[string]string{"Emit = FALSE": "Emit = TRUE", "EmitSel = 0": fmt.Sprintf("EmitSel = %d", c.Seed%5)})
+		gcfg := writeCfgVariant(c, cfg, "Prune_gen.cfg", map[string]string{"Emit = FALSE": "Emit = TRUE", "EmitSel = 0": fmt.Sprintf("EmitSel = %d", c.Seed%3)})
 		r := c.TLC(core.TLCOpts{Module: "Prune", Cfg: gcfg, Workers: 10, Timeout: 60 * time.Minute, HeapGB: 14})
 		c.MustPass(r, "Prune/"+cfg)
 		c.Set("states", r.Distinct)
 		c.Set("transitions", r.Generated)
+		samplePriority = func(class string) bool { return strings.Contains(class, "from-linked") }
 		bs, total, nclasses := sampleBehaviours(c, r.OutFile, "flags", budget)
-		requireActions(c, "commit", "committree", "push", "otherpush", "stage", "stash", "switch", "serverloses", "prune")
+		samplePriority = nil
+		requireActions(c, "commit", "committree", "push", "otherpush", "stage", "stash", "switch", "serverloses", "worktree", "prune")
 		c.Set("prune_edges_emitted", total)
 		c.Set("behaviour_classes", nclasses)
 		if len(bs) < 20 {
@@ -194,6 +204,6 @@ func init() {
 		for i := 0; i < len(bs); i += len(bs)/4 + 1 {
 			c.Sample(json.RawMessage(bs[i].raw))
 		}
-		c.Assume("commit dates are 0 or 20 days before now, far from the 10-day retention boundary; fetchrecentcommitsdays stays at its default 0; extra worktrees and detached HEAD are not yet in the model")
+		c.Assume("commit dates are 0 or 20 days before now, far from the 10-day retention boundary; fetchrecentcommitsdays stays at its default 0; at most one linked worktree (prune run from either side); detached HEAD is not yet in the model")
 	}
 }
